@@ -580,6 +580,7 @@ def check(rep):
                 'channel open, connection close, idle-then-call} x fault kind {eof, reset, epipe, poll-error, epipe found by a writer} x fault '
                 'time x schedule; COSIM-b: a two-thread session killed after n bytes received/sent (n over handshake, frame boundaries and '
                 'mid-frame offsets) x kind; distinct = distinct (scenario, seed); non-trivial = a fault actually happened while >= 1 thread was inside the library')
+    rep.rule += '; plus: a thread inside basic.cancel, and every failed pde/rpc/get thread calls again twice (later calls of the same thread)'
     rep.assumptions = [
         'latency is virtual time (vrt fair_time: time only advances when every thread sleeps or blocks), bound = POLL_TIMEOUT + IDLE_WAIT + %d ms scheduling slack' % SLACK_MS,
         'the reader thread is scheduled before time advances (model: no time passes while the socket is dead and the reader runs)',
